@@ -118,6 +118,10 @@ TARGETS = [
      {'files': ('input_data', 'output_data'), 'params': [('self_in', 'bytes'), ('self_out', 'bytes')]}),
     # the column slicing of the parameter reader (read-only method: expanded flag, decoder, table index, layouts are parameters)
     ('cardutil/mciipm.py', 'IpmParamReader._get_param_field', {'record': 'bytes', 'field': 'str'}, 'str', {'readonly': True}),
+    # the body of the `while True:` loop of IpmParamReader.__next__ for one record: a row (a dictionary) or None = go on
+    ('cardutil/mciipm.py', 'IpmParamReader.__next__', {}, ('opt', ('dict', 'str', 'str')),
+     {'readonly': True, 'fragment': ('while_body', 'record'), 'params': [('record', 'bytes')],
+      'lean_name': 'IpmParamReader_next_row'}),
     # IpmReader.__next__: the base reader's method through super(), the message decoder as an external function of the
     # record, the library error re-raised with the record number remembered BEFORE the read and the raw record as context
     ('cardutil/mciipm.py', 'IpmReader.__next__', {}, ('dict', 'str', 'pyval'),
@@ -180,7 +184,8 @@ SELF_STATE = {'Block1014': {'fields': [('remaining_chars', 'int')], 'sink': 'fil
               'Iso0PinBlock': {'fields': [('pin', 'str'), ('card_number', 'str')], 'readonly': True},
               'Iso4PinBlock': {'fields': [('pin', 'str'), ('random_value', 'int')], 'readonly': True},
               'IpmParamReader': {'fields': [('expanded', 'bool'), ('encoding', 'decoder'), ('table_index', ('dict', 'str', 'str')),
-                                            ('param_config', ('dict', 'str', ('dict', 'str', ('dict', 'str', 'int'))))],
+                                            ('param_config', ('dict', 'str', ('dict', 'str', ('dict', 'str', 'int')))),
+                                            ('table_id', 'str')],
                                  'readonly': True}}
 
 EXC = {'AssertionError': 'assertionError', 'ValueError': 'valueError', 'IndexError': 'indexError',
@@ -343,6 +348,10 @@ class Translator:
             return f'(Rt.InfoVal.{typ} {code})'
         if want == 'str' and typ == 'none':
             return '[]'              # None where a text is expected ("no reason"): the empty text
+        if isinstance(want, tuple) and want[0] == 'opt' and typ == want[1]:
+            return f'(some {code})'
+        if isinstance(want, tuple) and want[0] == 'opt' and typ == 'none':
+            return 'none'
         if isinstance(want, tuple) and isinstance(typ, tuple) and want[0] == typ[0] == 'tuple' and len(want) == len(typ) == 3 \
                 and code.startswith('(') and code.endswith(')') and typ[1] == want[1] and (typ[2], want[2]) == ('none', 'str'):
             return code[:code.rindex(',')] + ', ([] : Text))'
@@ -1603,6 +1612,25 @@ class Translator:
             same = s.test.left.value == s.test.comparators[0].value
             live = s.body if same == isinstance(s.test.ops[0], ast.Eq) else s.orelse
             return self.stmts(live + rest, env, ret, loop)
+        if isinstance(s, ast.If) and isinstance(s.test, ast.Compare) and len(s.test.ops) == 1 \
+                and isinstance(s.test.ops[0], ast.Eq) and isinstance(s.test.left, ast.Name) \
+                and env.get(s.test.left.id, (None, None))[1] == ('opt', 'str'):
+            # if x == e: where x came from d.get(k) (a text or None) and e is a text: inside the branch x IS a text
+            def go_narrow():
+                x = s.test.left.id
+                ec, et = self.expr(s.test.comparators[0], env)
+                if et != 'str':
+                    raise Untranslatable('comparison of an optional text with something that is not a text')
+                guard = getattr(self, 'catching', None)
+                env2 = dict(env)
+                env2[x] = (f'{x}_v', 'str')
+                then = self.stmts(s.body if self.terminates(s.body) else s.body + rest, env2, ret, loop)
+                self.catching = guard
+                other = self.stmts(s.orelse + rest if not self.terminates(s.orelse) else s.orelse, env, ret, loop)
+                self.catching = guard
+                return (f'match {env[x][0]} with\n  | some {x}_v =>\n    if {x}_v == {ec} then\n    ({then})\n  else\n    ({other})\n'
+                        f'  | none =>\n    ({other})')
+            return self.wrap(go_narrow)
         if isinstance(s, ast.If):
             def go():
                 c = self.cond(s.test, env)
@@ -1703,6 +1731,13 @@ class SelfRewriter(ast.NodeTransformer):
 
     def visit_Call(self, node):
         f = node.func
+        if isinstance(f, ast.Attribute) and isinstance(f.value, ast.Name) and f.value.id == 'self' \
+                and self.spec.get('readonly') and f'{self.cls}.{f.attr}' in self.tr.known and not node.keywords:
+            # self.m(args) where m is an already translated read-only method: the translated function on the same fields
+            return ast.copy_location(ast.Call(
+                func=ast.Name(id=f'{self.cls}.{f.attr}', ctx=ast.Load()),
+                args=[ast.Name(id=f'self_{fl}', ctx=ast.Load()) for fl in self.fields] + [self.visit(a) for a in node.args],
+                keywords=[]), node)
         if isinstance(f, ast.Attribute) and f.attr == 'read' and isinstance(f.value, ast.Attribute) \
                 and isinstance(f.value.value, ast.Name) and f.value.value.id == 'self' \
                 and f.value.attr == self.spec.get('source') and len(node.args) == 1:
@@ -1837,6 +1872,26 @@ def fragment_of(body, spec):
     before the first assignment to `name`, followed by `return result`"""
     def assigns(st, name):
         return isinstance(st, ast.Assign) and any(isinstance(t, ast.Name) and t.id == name for t in st.targets)
+    if spec[0] == 'while_body':
+        # ('while_body', name): the function is `while True:` around `name = super(...).__next__()` and further statements;
+        # the fragment is those further statements with `name` as a parameter, answering None when they end without
+        # returning (= the loop goes round again)
+        stmts = [st for st in body if not (isinstance(st, ast.Expr) and isinstance(st.value, ast.Constant))]
+        if len(stmts) != 1 or not isinstance(stmts[0], ast.While) or stmts[0].orelse \
+                or not (isinstance(stmts[0].test, ast.Constant) and stmts[0].test.value is True):
+            raise Untranslatable('not a single `while True:` loop')
+        inner = stmts[0].body
+        first = inner[0] if inner else None
+        if not (assigns(first, spec[1]) and isinstance(first.value, ast.Call) and isinstance(first.value.func, ast.Attribute)
+                and first.value.func.attr == '__next__' and isinstance(first.value.func.value, ast.Call)
+                and isinstance(first.value.func.value.func, ast.Name) and first.value.func.value.func.id == 'super'
+                and not first.value.args):
+            raise Untranslatable(f'the loop does not start with {spec[1]} = super().__next__()')
+        for st in inner[1:]:
+            for n in ast.walk(st):
+                if isinstance(n, (ast.Break, ast.Continue)) or (isinstance(n, ast.Name) and n.id == 'super'):
+                    raise Untranslatable('break / continue / super() in the loop body')
+        return list(inner[1:]) + [ast.Return(value=ast.Constant(None))]
     idx = [i for i, st in enumerate(body) if assigns(st, spec[1])]
     if not idx:
         raise Untranslatable(f'no assignment to {spec[1]} to cut the fragment at')
